@@ -679,6 +679,29 @@ def _signed(v, p):
     return v if v <= p // 2 else v - p
 
 
+def _sim_cases_small(rng):
+    """Reduced budget (~45 cases) for the large-committee PRSS configurations (m=7 t=3: comb(m,t)=35 PRSS
+    summands per bounded random value; m=6 t=2): everything that opens a value masked with _random()."""
+    C = []
+    for tn, L in (('int8', 8), ('int16', 16), ('int32', 32)):
+        for A in [-(1 << (L - 1)), (1 << (L - 1)) - 1, -1] + [rng.randrange(-(1 << (L - 1)), 1 << (L - 1)) for _ in range(2)]:
+            C.append(('to_bits', tn, A, rng.choice([None, None, L, rng.randrange(1, L + 1)])))
+    for A in [44, -3, 48, -128, 127] + [rng.randrange(-128, 128) for _ in range(2)]:
+        C.append(('to_bits', 'fxp84', A, rng.choice([None, 8, 5])))
+    for A in [5, -3, 127, -128] + [rng.randrange(-128, 128) for _ in range(2)]:
+        C.append(('from_to', A, 8))
+    for A in [12, 0, -128, 1, 96] + [rng.randrange(-128, 128) for _ in range(3)]:
+        C.append(('tz', A, rng.choice([None, None, 8, rng.randrange(1, 8)])))
+    for (A, B) in [(12, 40), (0, 64), (96, 80)] + [(rng.randrange(-128, 128), rng.randrange(-128, 128)) for _ in range(3)]:
+        C.append(('gcp2', A, B, rng.choice([None, None, 8])))
+    for (a, n) in [(3, 5), (0, 7), (7, 7), (rng.randrange(8), 8)]:
+        C.append(('uv', a, n))
+    C.append(('uv_twice', 'fxp84', 3, 5))
+    C.append(('to_bits_fld', 256, 0x53, None))
+    C.append(('to_bits_fld', 101, 100, None))
+    return C
+
+
 def _sim_cases(rng, n_scale):
     """Deterministic list of case specs for one configuration."""
     C = []
@@ -778,7 +801,7 @@ def _mutate(x, mode, one, a=None):
 
 def _sim_prog(cases):
     async def prog(mpc, mods, pid):
-        T = {'int8': mpc.SecInt(8), 'int16': mpc.SecInt(16), 'fxp84': mpc.SecFxp(8, 4)}
+        T = {'int8': mpc.SecInt(8), 'int16': mpc.SecInt(16), 'int32': mpc.SecInt(32), 'fxp84': mpc.SecFxp(8, 4)}
         F = {256: mpc.SecFld(2**8), 101: mpc.SecFld(101)}
         secint8, secfxp84 = T['int8'], T['fxp84']
         meta = {'p': {k: int(v.field.modulus) for k, v in T.items()},
@@ -951,12 +974,17 @@ def _sim_streams(ctx, rng, st):
     configs = [(1, 0, False), (3, 1, False), (5, 2, False), (3, 1, True)]
     if ctx.tier == 'thorough':
         configs += [(2, 0, False), (4, 1, False), (5, 2, True), (1, 0, True), (5, 1, False)]
+    # large committees with PRSS (many PRSS summands per bounded random value): reduced case budget
+    small = [(7, 3, False), (6, 2, False)]
+    if ctx.tier == 'thorough':
+        small += [(7, 3, True), (7, 2, False)]
+    configs += small
     ctx.rule += ('; simulator streams: the same functions on genuinely shared inputs (mpc.input, sender 0) for '
                  '(m,t,prss) in %s incl. an aliasing stream (caller mutates the list it passed before awaiting)' % (configs,))
     nsim = 0
     for (m, t, noprss) in configs:
         cfg = 'm=%d t=%d %s' % (m, t, 'no-prss' if noprss else 'prss')
-        cases = _sim_cases(rng, ctx.n(1, 3))
+        cases = _sim_cases_small(rng) if (m, t, noprss) in small else _sim_cases(rng, ctx.n(1, 3))
         sim = Sim(m=m, t=t, no_prss=noprss, seed=ctx.seed * 1000 + 17 * m + t + (7 if noprss else 0),
                   log_messages=False, track_tasks=False)
         try:
@@ -1007,7 +1035,7 @@ def _sim_check(ctx, rng, st, cfg, meta, c, got):
         model('add_bits %s %s' % (zlist(xb), zlist(yb)), got, key, 'add_bits')
     elif kind == 'to_bits':
         _, tn, A, l_arg = c
-        L, f = {'int8': (8, 0), 'int16': (16, 0), 'fxp84': (8, 4)}[tn]
+        L, f = {'int8': (8, 0), 'int16': (16, 0), 'int32': (32, 0), 'fxp84': (8, 4)}[tn]
         l = L if l_arg is None else l_arg
         integral = bool(f) and A % (1 << f) == 0
         want = bits_ref(A, l)
